@@ -5,8 +5,8 @@ cd "$(dirname "$0")"
 tier=${1:-quick}; jobs=${2:-3}
 out=seeded/RESULTS_$tier.txt; : > $out.tmp
 ls seeded | grep -E '^C[0-9]+_[a-z]$' | while read name; do
-  ids=$(python3 -c "import json;print(' '.join(json.load(open('seeded/$name/meta.json')).get('verif',{}).get('caught_by',[])))")
-  echo "$name $ids"
+  ids=$(python3 -c "import json;v=json.load(open('seeded/$name/meta.json')).get('verif',{});print('' if v.get('obsolete') else ' '.join(v.get('caught_by',[])))")
+  [ -n "$ids" ] && echo "$name $ids"
 done | xargs -P $jobs -L 1 bash -c './tools_seeded.sh $0 '$tier' "${@}" 2>&1 | grep "check=" | cut -c1-220' >> $out.tmp
 sort $out.tmp > $out; rm -f $out.tmp
 echo "lines: $(wc -l < $out)  not caught: $(grep -c 'exit=0' $out)  inconclusive: $(grep -c 'exit=2' $out)"
